@@ -7,7 +7,12 @@ tree spec (JSON-able):
   ['preapp', child, aspec]            ['remapp', child]              ['byparty', overall, allocator|None]
   ['multi', [children], depth]        ['tiebr', main, breaker]       ['plist', party_eval, list_eval|None, conv|None]
   aspec: None | int | {constituency: int} | ['ev', tree]             conv: [id, name]
-  ['vsys', child]  votelib.VotingSystem around child (not in the Coq model: stream `unembedded` only)
+  ['vsys', child]  votelib.VotingSystem around child
+  ['unused', [children], [[id, quota-name]..], depth]   UnusedVotesDistributor (quota functions are parts, like leaves)
+  ['byconsp', child, aspec (None | int | dict), preselector]   ByConstituency with a preselector
+  ['adj', calc, child]   AdjustedSeatCount; calc: ['calc', id, kind, params] (a calculator object as a part: 'allow' / 'level' over a
+                         leaf spec, 'levelbyc') | ['allow', tree] | ['level', tree] (AllowOverhang / LevelOverhang over a tree: embedded)
+                         | ['levelc', constituency tree, overall tree | None] (LevelOverhangByConstituency over trees: embedded)
 """
 import inspect
 from fractions import Fraction
@@ -62,6 +67,8 @@ def enc(v):
         return '(1 %d)' % v
     if isinstance(v, Fraction) and v.denominator == 1:
         return '(1 %d)' % v.numerator
+    if isinstance(v, Fraction):
+        return '(6 %d %d)' % (v.numerator, v.denominator)
     if isinstance(v, (str, core.Tie)):
         return enc_key(v)
     if isinstance(v, (list, tuple)):
@@ -92,6 +99,8 @@ def dec(s):
         return [dec(x) for x in s[1:]]
     if t == 5:
         return {dec_key(k): dec(v) for k, v in s[1:]}
+    if t == 6:
+        return Fraction(s[1], s[2])
     raise ValueError(s)
 
 
@@ -141,18 +150,43 @@ def mk_leaf(nm, params):
         return thr.PreviousGainThreshold(thr.AbsoluteThreshold(params[0]))
     if nm == 'vps':
         return prop.VotesPerSeat(params[0])
+    if nm == 'qd':
+        return prop.QuotaDistributor(params[0], on_overaward='subtract')
     if nm == 'listorder':
         return ol.ListOrderTieBreaker(core.Plurality())
     raise ValueError(nm)
 
 
-LKIND = {'plurality': 1, 'ha': 2, 'lr': 2, 'abs_thr': 3, 'rel_thr': 3, 'alt_thr': 4, 'prevgain_thr': 5, 'vps': 6, 'listorder': 7}
+LKIND = {'plurality': 1, 'ha': 2, 'lr': 2, 'qd': 2, 'abs_thr': 3, 'rel_thr': 3, 'alt_thr': 4, 'prevgain_thr': 5, 'vps': 6, 'listorder': 7}
 
 
 def mk_conv(nm):
     import votelib.convert as conv
     return {'ident': Ident, 'halve': Halve, 'totals': conv.VoteTotals, 'merged': conv.MergedDistributions,
             'sel2dist': conv.SelectionToDistribution, 'const_totals': conv.ConstituencyTotals}[nm]()
+
+
+def mk_quota(nm):
+    import votelib.component.quota as quota
+    if isinstance(nm, int):
+        return quota.constant(nm)
+    return quota.construct(nm)
+
+
+def mk_calc(kind, params):
+    """a seat count calculator object over leaf evaluators (a part, answered through the oracle table)"""
+    import votelib.evaluate.core as core
+    if kind == 'allow':
+        return core.AllowOverhang(mk_leaf(*params[0]))
+    if kind == 'level':
+        return core.LevelOverhang(mk_leaf(*params[0]))
+    if kind == 'levelbyc':
+        ce = core.ByConstituency(mk_leaf(*params[0]), apportioner=params[1])
+        return core.LevelOverhangByConstituency(ce, mk_leaf(*params[2]) if params[2] is not None else None)
+    raise ValueError(kind)
+
+
+LEVEL_FUEL = 80
 
 
 class Built:
@@ -189,6 +223,9 @@ class Built:
             elif isinstance(a, dict):
                 a = dict(a)
             o = core.ByConstituency(e, apportioner=a) if k == 'bycons' else core.PreApportioned(e, a)
+        elif k == 'byconsp':
+            e = self._b(t[1])
+            o = core.ByConstituency(e, apportioner=(dict(t[2]) if isinstance(t[2], dict) else t[2]), preselector=self._b(t[3]))
         elif k == 'remapp':
             o = core.RemovedApportionment(self._b(t[1]))
         elif k == 'byparty':
@@ -202,6 +239,20 @@ class Built:
         elif k == 'vsys':
             import votelib
             o = votelib.VotingSystem('x', self._b(t[1]))
+        elif k == 'unused':
+            rounds = [self._b(x) for x in t[1]]
+            qs = [self.parts.setdefault(q[0], mk_quota(q[1])) for q in t[2]]
+            o = core.UnusedVotesDistributor(rounds, qs, depth=t[3])
+        elif k == 'adj':
+            c = t[1]
+            if c[0] == 'calc':
+                calc = self.parts.setdefault(c[1], mk_calc(c[2], c[3]))
+            elif c[0] == 'levelc':
+                ce = self._b(c[1])
+                calc = core.LevelOverhangByConstituency(ce, self._b(c[2]) if c[2] is not None else None)
+            else:
+                calc = (core.AllowOverhang if c[0] == 'allow' else core.LevelOverhang)(self._b(c[1]))
+            o = core.AdjustedSeatCount(calc, self._b(t[2]))
         elif k == 'plist':
             p = self._b(t[1])
             le = self._b(t[2]) if t[2] is not None else None
@@ -245,7 +296,24 @@ def wire(t):
             return '(14 %s)' % wire(t[1])
         return '(15 %s %s %s)' % (wire(t[1]), wire(t[2]), '()' if t[3] is None else '(%d)' % t[3][0])
     if k == 'vsys':
-        raise Unencodable('VotingSystem is not embedded in the model')
+        return '(16 %s)' % wire(t[1])
+    if k == 'unused':
+        return '(17 (%s) (%s) %d)' % (' '.join(wire(x) for x in t[1]), ' '.join(str(q[0]) for q in t[2]), t[3] - 1)
+    if k == 'adj':
+        c = t[1]
+        if c[0] == 'calc':
+            return '(18 %d %s)' % (c[1], wire(t[2]))
+        if c[0] == 'allow':
+            return '(19 %s %s)' % (wire(c[1]), wire(t[2]))
+        if c[0] == 'levelc':
+            if c[2] is None:
+                return '(23 %s %s %d)' % (wire(c[1]), wire(t[2]), LEVEL_FUEL)
+            return '(22 %s %s %s %d)' % (wire(c[1]), wire(c[2]), wire(t[2]), LEVEL_FUEL)
+        return '(20 %s %s %d)' % (wire(c[1]), wire(t[2]), LEVEL_FUEL)
+    if k == 'byconsp':
+        a = t[2]
+        asx = '(0)' if a is None else ('(1 %d)' % a if isinstance(a, int) else '(2 %s)' % enc(a))
+        return '(21 %s %s %s)' % (wire(t[1]), asx, wire(t[3]))
     raise ValueError(k)
 
 
@@ -257,7 +325,7 @@ def sig_sx(obj):
     """inspect.signature(obj.evaluate) in the wire form of Units_C14.enc_sig"""
     ps, ks, vp, vk = [], [], 0, 0
     for i, (nm, p) in enumerate(inspect.signature(obj.evaluate).parameters.items()):
-        if i == 0:
+        if i == 0 and p.kind not in (p.VAR_POSITIONAL, p.VAR_KEYWORD):
             continue          # votes
         if p.kind == p.VAR_POSITIONAL:
             vp = 1
@@ -311,6 +379,8 @@ class Hand:
             return self.cond(t, votes, **a)
         if k == 'bycons':
             return self.bycons(t, votes, **a)
+        if k == 'byconsp':
+            return self.byconsp(t, votes, **a)
         if k == 'preapp':
             n_seats, prev, mx = a.get('n_seats'), a.get('prev_gains', {}), a.get('max_seats', {})
             return self.run(t[1], votes, n_seats=self.apportion(t[2], votes, n_seats), prev_gains=prev, max_seats=mx)
@@ -327,6 +397,10 @@ class Hand:
             return self.plist(t, votes, **a)
         if k == 'vsys':                                  # the system object adds nothing
             return self.run(t[1], votes, **a)
+        if k == 'unused':
+            return self.unused(t, votes, **a)
+        if k == 'adj':
+            return self.adj(t, votes, **a)
         raise ValueError(k)
 
     # conditioning = evaluating on the votes restricted to the candidates the eliminator passed
@@ -370,14 +444,27 @@ class Hand:
         raise ValueError('no apportionment')
 
     # per-constituency evaluation = each constituency separately with its apportioned seats
-    def bycons(self, t, votes, n_seats=None, prev_gains={}, max_seats={}):
+    def byconsp(self, t, votes, n_seats=None, prev_gains={}, max_seats={}):
+        # the candidates preselected on the national totals; every constituency on its votes restricted to them
         app = self.apportion(t[2], votes, n_seats)
+        totals = {}
+        for v in votes.values():
+            for p, x in v.items():
+                totals[p] = totals.get(p, 0) + x
+        keep = self.run(t[3], totals, n_seats=n_seats) if n_seats is not None and self.takes(t[3], 'n_seats') else self.run(t[3], totals)
+        return self.bycons(t, votes, n_seats, prev_gains, max_seats, keep=keep, app=app)
+
+    def bycons(self, t, votes, n_seats=None, prev_gains={}, max_seats={}, keep=None, app=None):
+        if app is None:
+            app = self.apportion(t[2], votes, n_seats)
         out, empty = {}, []
         for c, v in votes.items():
             n = app.get(c, 0)
             if n == 0:
                 empty.append(c)
                 continue
+            if keep is not None:
+                v = {p: x for p, x in v.items() if p in keep}
             if self.takes(t[1], 'prev_gains'):
                 out[c] = self.run(t[1], v, n_seats=n, prev_gains=prev_gains.get(c, {}), max_seats=max_seats.get(c, {}))
             else:
@@ -428,6 +515,109 @@ class Hand:
             elected = merge(elected, res, t[2])
         return elected
 
+    # unused-votes distribution = chaining the stages: every stage sees the votes not yet used up (quota * seats gained is
+    # taken from a candidate) and the seats not yet given; the result is the previous gains plus the seats of every stage
+    def unused(self, t, votes, n_seats, prev_gains={}, max_seats={}):
+        import votelib.evaluate.core as core
+        depth = t[3]
+        if max_seats:
+            raise NotImplementedError('max_seats')
+
+        def merge(x, y, d):
+            if d == 1:
+                out = dict(x)
+                for c, s in y.items():
+                    out[c] = out.get(c, 0) + s
+                return out
+            return {c: merge(x.get(c, {}), y.get(c, {}), d - 1) for c in list(x) + [c for c in y if c not in x]}
+
+        def deep(x, d):
+            return dict(x) if d == 1 else {c: deep(v, d - 1) for c, v in x.items()}
+
+        def use(v, res, left, qf, d):
+            if d == 1:
+                quota = qf(sum(v.values()), left)
+                out = {}
+                for c, x in v.items():
+                    used = quota * res.get(c, 0)
+                    if x < used:
+                        raise core.VotingSystemError('more votes used than cast')
+                    out[c] = x - used
+                return out
+            return {con: use(cv, res.get(con, {}), (left.get(con, 0) if isinstance(left, dict) else left), qf, d - 1)
+                    for con, cv in v.items()}
+
+        def total(res, d):
+            return sum(res.values()) if d == 1 else sum(total(x, d - 1) for x in res.values())
+
+        def remaining(left, res, d):
+            if isinstance(left, dict):
+                return {con: remaining(n, res.get(con, {}), d - 1) for con, n in left.items()}
+            return left - total(res, d)
+        quotas = [self.parts[q[0]] for q in t[2]]
+        elected, v, left = deep(prev_gains, depth), votes, n_seats
+        for k, stage in enumerate(t[1][:len(quotas) + 1]):
+            res = self.run(stage, v, n_seats=left)
+            elected = merge(elected, res, depth)
+            if k < len(quotas):
+                v, left = use(v, res, left, quotas[k], depth), remaining(left, res, depth)
+        return elected
+
+    # adjusted seat count = evaluating with the seat count the calculator adds
+    def adj(self, t, votes, n_seats, prev_gains, max_seats={}):
+        c = t[1]
+        if c[0] == 'calc':
+            a = self.parts[c[1]].calculate(votes, n_seats, prev_gains=prev_gains, max_seats=max_seats)
+        elif c[0] == 'levelc':    # the house grows until every party's share covers, constituency by constituency, what it holds there
+            def totals(nested):
+                out = {}
+                for v in nested.values():
+                    for p, x in v.items():
+                        out[p] = out.get(p, 0) + x
+                return out
+            cty = self.run(c[1], votes, n_seats=n_seats, max_seats=max_seats)
+            lowest = {}
+            for con, res in cty.items():
+                for p, s in res.items():
+                    lowest[p] = lowest.get(p, 0) + max(prev_gains.get(con, {}).get(p, 0), s)
+            for con, g in prev_gains.items():
+                for p, x in g.items():
+                    if p in lowest and p not in cty.get(con, {}):
+                        lowest[p] += x
+            drop = sum(x for g in prev_gains.values() for p, x in g.items() if p not in lowest)
+            h = n_seats - drop
+            if c[2] is not None:
+                nat = totals(votes)
+                overall = lambda k: self.run(c[2], nat, n_seats=k, max_seats=max_seats)   # noqa
+            else:
+                overall = lambda k: totals(self.run(c[1], votes, n_seats=k, max_seats=max_seats))   # noqa
+            share = overall(h)
+            for _ in range(LEVEL_FUEL + 1):
+                if not any(share.get(p, 0) < m for p, m in lowest.items()):
+                    break
+                h += 1
+                share = overall(h)
+            else:
+                raise OutOfFuel()
+            a = h + drop - n_seats
+        elif c[0] == 'allow':     # every party keeps the seats it holds beyond its proportional share
+            share = self.run(c[1], votes, n_seats=n_seats, max_seats=max_seats)
+            a = sum(max(0, g - share.get(p, 0)) for p, g in prev_gains.items())
+        else:                     # the house grows until every party's proportional share covers what it holds
+            share = self.run(c[1], votes, n_seats=n_seats, max_seats=max_seats)
+            lowest = {p: max(prev_gains.get(p, 0), g) for p, g in share.items()}
+            drop = sum(g for p, g in prev_gains.items() if p not in lowest)
+            h = n_seats - drop
+            for _ in range(LEVEL_FUEL + 1):
+                if not any(share.get(p, 0) < m for p, m in lowest.items()):
+                    break
+                h += 1
+                share = self.run(c[1], votes, n_seats=h, max_seats=max_seats)
+            else:
+                raise OutOfFuel()
+            a = h + drop - n_seats
+        return self.run(t[2], votes, n_seats=n_seats + a, prev_gains=prev_gains, max_seats=max_seats)
+
     # tie-breaking = each tie replaced by the tiebreaker's choice among exactly the tied candidates
     def tiebr(self, t, votes, **a):
         import votelib.evaluate.core as core
@@ -471,6 +661,10 @@ class Hand:
 
 class AllZero(Exception):
     """every constituency has zero seats: the by-hand result has no defined type"""
+
+
+class OutOfFuel(Exception):
+    """the levelling loop did not end within the model's fuel"""
 
 
 class IllFormedBreak(Exception):
